@@ -81,6 +81,15 @@ func genC01Tmpl(t *rapid.T) C01Tmpl {
 			tm.Fields["id"] = "valid"
 		}
 	}
+	// neighbour lists with a twist: one address under several IDs, the queried address itself, unroutable entries
+	switch uniformInt(t, 5, "f.nodes.special") {
+	case 0:
+		tm.Fields["nodes"] = "dup-addr"
+	case 1:
+		tm.Fields["nodes"] = "self-addr"
+	case 2:
+		tm.Fields["nodes"] = "odd-addrs"
+	}
 	// special IDs: the node's own, all-zero
 	switch uniformInt(t, 6, "f.id.special") {
 	case 0:
@@ -172,7 +181,7 @@ func c01Node(i int, dual bool) *net.UDPAddr {
 }
 
 // build turns a reply template into bytes answering transaction t.
-func (tm C01Tmpl) build(t string, dual bool, own [20]byte) []byte {
+func (tm C01Tmpl) build(t string, dual bool, own [20]byte, queried *net.UDPAddr) []byte {
 	valid := map[string]BV{
 		"id":       bs(bytes.Repeat([]byte{0x5a}, 20)),
 		"nodes":    bstr(compactNodes(false, []SimContact{{[20]byte{1, 1}, c01Node(20, false)}, {[20]byte{2, 2}, c01Node(21, false)}, {[20]byte{3}, c01Node(22, false)}})),
@@ -212,6 +221,19 @@ func (tm C01Tmpl) build(t string, dual bool, own [20]byte) []byte {
 	for _, f := range c01RespFields {
 		var v BV
 		switch tm.Fields[f] {
+		case "dup-addr": // one address advertised under three IDs and nothing else
+			a := c01Node(25, false)
+			v = bstr(compactNodes(false, []SimContact{{[20]byte{1}, a}, {[20]byte{2}, a}, {[20]byte{3}, a}}))
+		case "self-addr": // the answering node lists itself under other IDs
+			if q4 := queried.IP.To4(); q4 != nil {
+				qa := &net.UDPAddr{IP: q4, Port: queried.Port}
+				v = bstr(compactNodes(false, []SimContact{{[20]byte{4}, qa}, {[20]byte{5}, qa}}))
+			} else {
+				continue
+			}
+		case "odd-addrs": // port 0, first octet 0, broadcast, loopback
+			v = bstr(compactNodes(false, []SimContact{{[20]byte{6}, &net.UDPAddr{IP: net.IP{81, 1, 0, 30}, Port: 0}}, {[20]byte{7}, &net.UDPAddr{IP: net.IP{0, 1, 2, 3}, Port: 80}},
+				{[20]byte{8}, &net.UDPAddr{IP: net.IP{255, 255, 255, 255}, Port: 80}}, {[20]byte{9}, &net.UDPAddr{IP: net.IP{127, 0, 0, 1}, Port: 4000}}}))
 		case "own":
 			v = bs(own[:])
 		case "zero":
@@ -400,7 +422,7 @@ func runC01(sc C01Sc, c *kit.Case) *kit.Violation {
 				continue
 			}
 			q := qs[len(qs)-1-d.K%len(qs)]
-			data = d.Tmpl.build(q.T, sc.Cfg.Dual, nodeID)
+			data = d.Tmpl.build(q.T, sc.Cfg.Dual, nodeID, q.To)
 			src = q.To
 			if d.FromOther {
 				src = d.Src.UDP()
